@@ -57,6 +57,8 @@ import (
 	_ "unsafe"
 
 	"golang.org/x/tools/go/ssa"
+
+	"gosym/smt"
 )
 
 type continuation int
@@ -79,6 +81,8 @@ type methodSet map[string]*ssa.Function
 
 // State of one interpreter instance (one per explored path).
 type interpreter struct {
+	fpMemo     map[*value]fpEntry         // fingerprints of digest sources
+	hashEqMemo map[[2]*value]*smt.Term // boxEq of digest tokens, per pair of source slices
 	osArgs             []value                // the value of os.Args
 	prog               *ssa.Program           // the SSA program
 	globals            map[*ssa.Global]*value // addresses of global variables (immutable)
